@@ -12,7 +12,7 @@ FUNCTIONS = [
     "batchie.cli.reveal_plate.main", "batchie.cli.extract_screen_metadata.main (through get_parser / get_args with sys.argv set; class lookup by name answered from the loaded modules)",
 ]
 BOUNDS = {
-    "quick": "4 rows on 3 plates (two screens), every initial per-plate status, symbolic observation values, every history of 2 operations from {reveal(<=2 plate ids incl. repeated / already observed / unknown ids -1 and n_plates), mask, unmask, save+load, reveal via CLI}; construction: every per-row mask on 4 rows; one screen of 300 single-experiment plates with reveals of ids 255, 256, 299 (thorough: 0, 17 too)",
+    "quick": "4 rows on 3 plates (two screens), every initial per-plate status, symbolic observation values, every history of 2 operations from {reveal(<=2 plate ids incl. repeated / already observed / unknown ids -1 and n_plates), mask, unmask, save+load, reveal via CLI}; construction: every per-row mask on 4 rows; one screen of 300 single-experiment plates with reveals of ids 255, 256, 299 (thorough: 0, 17 too); construction (3 rows) with observation values of every float class",
     "thorough": "structure A: 4 rows with histories of 3 operations, 5 rows with 2; structure B: 4, 5 and 6 rows (4 plates) with histories of 2 operations; 300 plates with more reveal ids",
 }
 ASSUMPTIONS = [
